@@ -988,6 +988,10 @@ func faultCases(thorough bool) []faultCase {
 			out = append(out, faultCase{"send+late-recv", i, codes.Unavailable, then})
 		}
 	}
+	// after the fault the application resets the client and points it at ANOTHER server (ReplaceStub)
+	for _, side := range []string{"send", "recv"} {
+		out = append(out, faultCase{side, 1, codes.Unavailable, "reset+replace-stub"})
+	}
 	// the read side fails while the write side still accepts (and loses) messages: the receive error is the only
 	// report of the failure - also when it arrives before the application has called StartSending
 	for _, then := range []string{"close", "reset"} {
@@ -1053,8 +1057,14 @@ func faultBody(fc faultCase) func() {
 		case "close":
 			c.Close()
 			rt.Emit("closed", nil)
-		case "reset":
+		case "reset", "reset+replace-stub":
 			c.Reset()
+			if fc.then == "reset+replace-stub" {
+				if err := c.ReplaceStub(wire.New(&script{streams: 1})); err != nil {
+					rt.Emit("reconnect-error", "ReplaceStub: "+err.Error())
+					return
+				}
+			}
 			rt.Emit("reset-returned", nil)
 			f2 := snapshot(c, nil, false)
 			rt.Emit("after-reset", fmt.Sprintf("pending=%v results=%v send-errors=%d recv-errors=%d", f2.pending, f2.results, f2.sendErrs, f2.recvErrs))
@@ -1135,7 +1145,7 @@ func checkFault(fc faultCase) func(x *rt.Exec) []mc.Fail {
 				bad("C14/done-not-signalled", "%s: the stream failed but Done() was not signalled", fc)
 			}
 		}
-		if fc.then == "reset" {
+		if fc.then == "reset" || fc.then == "reset+replace-stub" {
 			if s, _ := ev["after-reset"].(string); s != "pending=[] results=[] send-errors=0 recv-errors=0" {
 				bad("C14/stale-state-after-reset", "%s: after Reset the client holds %s", fc, s)
 			}
